@@ -63,6 +63,7 @@ int creds_issue(const CertSpec *spec, const SM2_KEY *subject_key,
 int creds_make_name(const char *cn, uint8_t *name, size_t *namelen);
 int creds_build(CredSet *cs, int depth, int tlcp);
 const CredSet *creds_get(int depth, int tlcp);          /* cached, honest */
+size_t creds_extra_roots(int n, uint8_t *out, size_t cap);   /* n unrelated self-signed roots (cached) */
 void creds_chain(const CredSet *cs, int server, uint8_t *out, size_t *outlen);
 
 /* ----------------------------------------------------------------- plan */
@@ -111,6 +112,7 @@ typedef struct Plan {
 	int64_t ntasks, preempt_mean, pct_d;
 	/* byz */
 	int64_t victim;
+	int64_t extra_roots;   /* unrelated additional trust anchors configured next to the real one */
 	int nrounds; Round rounds[MAX_ROUNDS];
 	int nfaults; Fault faults[MAX_FAULTS];
 } Plan;
@@ -226,6 +228,7 @@ typedef struct HonestOut {
 	struct { int rec; uint64_t start; uint32_t len; } recmap[2][MAX_REC];
 	int finished[2];
 	int step_capped, quiesced;
+	int setup_refused;              /* tls_init / tls_set_socket refused the configuration */
 } HonestOut;
 
 /* run one client/server connection per plan (faults included) and collect what happened */
